@@ -182,6 +182,8 @@ def eqMask (a : List Int) (v : Int) : List Bool := a.map (fun x => decide (x = v
 def neMask (a : List Int) (v : Int) : List Bool := a.map (fun x => decide (x ≠ v))
 /-- `a[mask]` -/
 def select (a : List α) (m : List Bool) : List α := (List.zip a m).filterMap (fun p => if p.2 then some p.1 else none)
+/-- `a[idx_list]` (fancy indexing with an integer array) -/
+def take (a : List α) (is : List Int) : Option (List α) := is.mapM (idx a)
 /-- `np.count_nonzero(mask)` -/
 def countNonzero (m : List Bool) : Int := ((m.filter id).length : Int)
 /-- `mask.argmax()` : first `True`, 0 if there is none; raises on an empty array -/
